@@ -23,7 +23,7 @@ CLAIMED["C04"] = dict(
     text="Proof (Lean 4), for every machine set, every oracle (all seeds and every value a sampler can return, NaN/inf included) and every history "
          "with arbitrary batches: returned machine ids strictly increasing and existing (so distinct, at most one per machine, none without machines), "
          "each action is the projection (kind, bypass, replace, timer) of an action of a state of the machine it names, all timeouts/durations <= 24 h, "
-         "END is absorbing across calls. The same decidable predicates run as a monitor on the implementation's traces; correspondence on actions.",
+         "END is absorbing across calls. The same decidable predicates run as a monitor on the implementation's traces; correspondence on actions. Monitor tied to the model (Proofs/MonitorAcceptA.lean): C04_monitor_accepts_model - C04.monitor returns none on the model's own trace (LL.modelTrace) for every machine set, configuration, oracle and history (validated or not), so both rules (per-call output contract, no action for a machine the previous snapshot shows in END) hold of the model in the monitor's vocabulary and the monitor cannot raise a false alarm on an implementation that agrees with the model.",
     ref="5 (C04)",
     technique="Lean 4 invariant proof over primitive steps of the framework model (Step/Reach/Run engine) + differential correspondence + spec monitor on implementation traces",
 )
@@ -32,7 +32,7 @@ CLAIMED["C02"] = dict(
     text="Proof (Lean 4), for every machine set, fractions, oracle, every prior history (single events or batches) and every single-event call: a returned "
          "SendPadding for machine m implies, with packet counts recomputed from the event history alone, budget not exhausted or both the machine's and the "
          "framework's padding fraction below their limits (fraction over zero packets counts as below). Rests on a proved refinement: the model's accounting "
-         "fields are a pure function of the reported events. The exact-rational form of the same predicate runs as a monitor on the implementation's traces.",
+         "fields are a pure function of the reported events. The exact-rational form of the same predicate runs as a monitor on the implementation's traces. Monitor tied to the model (Proofs/MonitorAcceptC.lean): C02_monitor_accepts_model - C02.monitor returns none on the model's own trace (LL.modelTrace) for every machine set, configuration, oracle and history (batches, unknown ids, faulting calls) with fewer than 2^53 reported packets, so it cannot raise a false alarm on an implementation that agrees with the model; the bound is exact: C02_monitor_rejects_beyond_2p53 is a kernel-checked model trace with 2^53+2 packets that the exact-fraction monitor rejects (the u64 to f64 conversion of the counts rounds).",
     ref="5 (C02)",
     technique="Lean 4: gate invariant over primitive steps + accounting refinement theorem; differential correspondence; exact-rational spec monitor on implementation traces",
 )
@@ -42,7 +42,7 @@ CLAIMED["C03"] = dict(
          "a returned BlockOutgoing for machine m implies replace-while-active, or blocked time (recomputed from the BlockingBegin/End reports and timestamps alone, "
          "ongoing block counted to now, negative spans as 0) below allowed_blocked_microsec, or the blocked share below both the machine's and the framework's fraction. "
          "Rests on the proved accounting refinement. The share is the double the code computes; C03_share_exact / C03_share_band relate it to the exact rational share (below in doubles implies exact share < limit (1 + 2^-49); the two tests agree outside the band limit (1 +- 2^-50)) for durations below 2^53 s. "
-         "The same decidable predicate runs as a monitor on the implementation's traces under a virtual clock.",
+         "The same decidable predicate runs as a monitor on the implementation's traces under a virtual clock. Monitor tied to the model (Proofs/MonitorAcceptC.lean): C03_monitor_accepts_model - C03.monitor returns none on the model's own trace (LL.modelTrace) for every machine set, configuration, oracle and history (batches, arbitrary and backward clocks, faulting calls) with no hypothesis: its recount of blocked time is the model's accounting and blockOK is the gate's predicate.",
     ref="5 (C03)",
     technique="Lean 4: gate invariant over primitive steps + accounting refinement theorem; differential correspondence under a virtual clock; spec monitor on implementation traces",
 )
@@ -63,7 +63,7 @@ CLAIMED["C01"] = dict(
          "model can raise is the checked Duration addition of the blocking accounting, shown reachable by a kernel-evaluated witness that panics the real code too (known finding F6), "
          "and excluded (C01_total: no fault of any kind) whenever all clock values lie in a window of width B with (calls+1)*B <= Duration::MAX, by a potential argument (blocked + ongoing grows by at most B per call). "
          "The oracle abstracts the rand_distr samplers: a panic inside a sampler is outside the model and is caught by the monitor (known finding F12). "
-         "The work bound is a theorem on the model's ghost log (at most 3(events+1)(machines+1) transition invocations per call, any machines/oracle/batch); the monitor checks the implementation's hooked log against the bound and for panics.",
+         "The work bound is a theorem on the model's ghost log (at most 3(events+1)(machines+1) transition invocations per call, any machines/oracle/batch); the monitor checks the implementation's hooked log against the bound and for panics. Monitor tied to the model (Proofs/MonitorAcceptA.lean): C01_monitor_work - the work-bound rule never fires on the model's own trace (LL.modelTrace) for every machine set, configuration, oracle and history; C01_monitor_model_iff - the monitor returns none exactly when neither Framework::new nor any call reports a fault; C01_monitor_accepts_model under the hypotheses of C01_total, both shown necessary by kernel-checked witnesses (C01_monitor_rejects_overflow = finding F6, C01_monitor_rejects_unvalidated).",
     ref="5 (C01)",
     technique="Lean 4: safety induction over the mutually recursive transition/update_counter with a fuel measure + bounded call-level walker; differential correspondence incl. panic class; monitor for the work bound",
 )
@@ -98,7 +98,7 @@ CLAIMED["C08"] = dict(
          "machine's own guard flag unset (flags per machine, cleared every call), CounterZero is delivered to the same machine at once iff an update reported zero and its action takes precedence. "
          "Over a whole call a machine is delivered CounterZero at most twice, once per counter (C08_at_most_twice_per_call, potential argument on the ghost log), and the model's log of every call satisfies the monitor's own rules (C08_log_adjacent: checkLog and strayCZ accept it; C08_log_exact: "
          "a counter update is followed at once by the CounterZero delivery exactly when it takes a counter of that machine from non-zero to zero for the first time in the call; C08_log_cz_preceded; counters of every reachable state are u64: C08_counters_u64_run). "
-         "Whole-history behaviour is tied to the code by the correspondence on counter values and the hooked counter log, and by the monitor from the property text.",
+         "Whole-history behaviour is tied to the code by the correspondence on counter values and the hooked counter log, and by the monitor from the property text. Monitor tied to the model (Proofs/MonitorAcceptB.lean): C08_call_values (every logged update equals the specified saturating operation on the specified operand) and C08_monitor_accepts_model - C08.monitor returns none on the model's own trace (LL.modelTrace) for every machine set, configuration, oracle and history, no hypothesis.",
     ref="5 (C08)",
     technique="Lean 4 theorems on the counter update functions of the model + hooked counter log: spec monitor and differential correspondence on the implementation",
 )
@@ -107,7 +107,7 @@ CLAIMED["C09"] = dict(
          "except a lone signaller exactly once in index order and the lone signaller once afterwards iff the round raised a new signal; counted on the model's ghost copy of the hook log, no machine receives more than one Signal per call "
          "and processing reported events delivers none. Exactness over a whole call (C09_call_delivers, C09_call_delivers_log, C09_call_deliveries; any machines, oracle, batch): with the signalling transitions read off the ghost log, "
          "no signaller: nobody receives a Signal; two distinct signallers: every machine exactly one; a lone signaller x: every other machine exactly one and x one iff the round's deliveries were answered by a signal, else none - also in the monitor's own "
-         "vocabulary (deliveries to machines that have not ended). The implementation is tied to this by the correspondence of the internal log and by the monitor from the property text.",
+         "vocabulary (deliveries to machines that have not ended). The implementation is tied to this by the correspondence of the internal log and by the monitor from the property text. Monitor tied to the model (Proofs/MonitorAcceptB.lean): C09_call_accepted, C09_events_sample_no_signal_event, C09_round_parts and C09_monitor_accepts_model - C09.monitor returns none on the model's own trace (LL.modelTrace) for every machine set, configuration, oracle and history, no hypothesis, including the hand-over of a deferred second-round signal between calls.",
     ref="5 (C09)",
     technique="Lean 4 theorems on the signal slot algebra, the unfolding of the delivery round and exact counting of deliveries on the ghost log over whole calls + spec monitor on the implementation's internal log + differential correspondence",
 )
@@ -123,7 +123,7 @@ CLAIMED["C10"] = dict(
 CLAIMED["C06"] = dict(
     text="Proof (Lean 4) over ALL 2^23 outcomes of the uniform draw, symbolically (a counting lemma, no enumeration): for every validated probability vector the number of outcomes selecting target i is exactly "
          "ceil(c_i 2^23) - ceil(c_{i-1} 2^23) for the f32 running sums c_i the code computes (monotone, proved via rne_mono), the remainder selects nothing, each share is within 2^-23 + 2^-24 of p_i, probability 1 is always taken, "
-         "no vector never moves the machine; the w >> 9 bit model of rand's f32 draw is proved and validated exhaustively. Correspondence: State::sample_state under a counting RNG, boundary words in the quick tier, all 2^23 words for sets of vectors in both tiers.",
+         "no vector never moves the machine; the w >> 9 bit model of rand's f32 draw is proved and validated exhaustively. Correspondence: State::sample_state under a counting RNG, boundary words in the quick tier, all 2^23 words for sets of vectors in both tiers. Framework level (Spec/C06.lean fwMonitor, Proofs/MonitorAcceptA.lean): C06_log_fresh_draws - for every machine set, oracle and history every log of the model's trace passes checkDraws: each transition lookup with a declared list, including nested CounterZero/LimitReached/Signal lookups, is directly followed by a draw of its own and by the sampling entry exactly when the declared probabilities assign a target to that draw; C06_monitor_accepts_model for oracles whose draws are among the 2^23 values k/2^23 (C06_drawInRange_iff; necessary by C06_monitor_rejects_bad_draw, true of the code by C06_draw01). The same monitor runs on the implementation's hooked log of framework cases (generators general, c08, c07).",
     ref="5 (C06)",
     technique="Lean 4 counting theorem over the whole draw space on the Rat-based IEEE model + exhaustive differential enumeration of all 2^23 draw outcomes against the closed form",
 )
